@@ -74,8 +74,10 @@ PROPS = {
         "engine": "samplers",
         "timeout_s": {"quick": 180, "thorough": 900},
         "batches": {
-            "quick": [{"config": "clang-O2-ndebug", "runs": 600}, {"config": "gcc-O1-asan-ubsan", "runs": 200, "kv": {"law_frac": "0.03"}}],
-            "thorough": [{"config": "clang-O2-ndebug", "runs": 4000}, {"config": "gcc-O1-asan-ubsan", "runs": 500, "kv": {"law_frac": "0.03"}}],
+            "quick": [{"config": "clang-O2-ndebug", "runs": 600}, {"config": "gcc-O1-asan-ubsan", "runs": 200, "kv": {"law_frac": "0.03"}},
+                      {"config": "clang-O1-preempt", "runs": 300, "kv": {"law_frac": "0", "conc_frac": "0.4"}}],
+            "thorough": [{"config": "clang-O2-ndebug", "runs": 4000}, {"config": "gcc-O1-asan-ubsan", "runs": 500, "kv": {"law_frac": "0.03"}},
+                         {"config": "clang-O1-preempt", "runs": 4000, "kv": {"law_frac": "0", "conc_frac": "0.4"}}],
         },
         "rule": "Two kinds of run on one caller-owned std::mt19937. History runs: 1-4 clients, each bound to a sampler family, interleaved "
                 "by the seeded scheduler with re-seeding (0, 1, 5489, 2^32-1, random) and discard(1..1e6) faults; after every sampler op "
